@@ -38,7 +38,7 @@ def lemma_fn(trigger):
 
 
 IDENTITY_FNS = {"float_bits": ("float", "int"), "float_from_bits": ("int", "float"),
-                "dset": None, "seq_items": None}
+                "dset": None, "seq_items": None, "bv_to_int": None}
 
 
 def dset(d, k, v):
